@@ -487,6 +487,13 @@ func readDnsMsgFromBufio(reader *bufio.Reader, timeout time.Duration, conn net.C
 		return nil, 0, err
 	}
 
+	// A response (QR=1) is never a client query. Report it without consuming
+	// it (frame length 0) so the caller can still fall back to plain TCP relay
+	// with the client's byte stream intact.
+	if msg.Response {
+		return &msg, 0, nil
+	}
+
 	// Consume the data by discarding it
 	_, err = reader.Discard(int(2 + length))
 	if err != nil {
